@@ -19,6 +19,9 @@ type Opts struct {
 	Descs       bool
 	OddNames    bool // acronym / digit names (no expected-model lanes)
 	EntityOnly  bool // every file gets an entity (C17)
+	// OddPathParams: scalar request fields that become path parameters may get a name
+	// that does not survive camel -> snake -> camel (userID, snake_name, aB); C16
+	OddPathParams bool
 	Noise       bool
 	// Mask disables features that are excluded by construction because of an open
 	// finding; the key names are those used in Classes.
@@ -36,7 +39,7 @@ var fieldWords2 = []string{"Id", "Name", "Count", "Type", "Code", "Date", "Key",
 var oddNames = []string{"userID", "line2", "HTTPServer", "snake_name", "x", "aB", "urlV2", "ID"}
 var enumWords = []string{"ACTIVE", "INACTIVE", "PENDING", "DONE", "RED", "GREEN", "BLUE", "SMALL", "LARGE", "OPEN", "CLOSED"}
 var descPool = []string{"A short description.", "Second line\nof text", "Uses \"quotes\" and a \\ backslash", "Multi paragraph\n\nsecond paragraph", "unicode é名", "trailing words here", "Has // slashes and /* stars */"}
-var patternPool = []string{"^[a-z]+$", "^\\d{3}$", "^[A-Z][a-z0-9_]*$", "^a.b$", "^(x|y)z?$", "^[^/]+$"}
+var patternPool = []string{"^[a-z]+$", "^\\d{3}$", "^[A-Z][a-z0-9_]*$", "^a.b$", "^(x|y)z?$", "^[^/]+$", "^[😀-🙏]+$", "^é名$"}
 
 // typeInfo is a declared (referencable) top-level type.
 type typeInfo struct {
@@ -220,7 +223,7 @@ func (g *gen) enumBody(name, hint string) *Enum {
 	for i := 0; i < n; i++ {
 		o := &EnumOption{Name: words[i], Desc: g.desc()}
 		if !g.masked("enum-option-info") && rapid.IntRange(0, 3).Draw(t, "info") == 0 {
-			o.Info = map[string]string{"color": rapid.SampledFrom([]string{"red", "dark \"blue\"", ""}).Draw(t, "infov")}
+			o.Info = map[string]string{"color": rapid.SampledFrom([]string{"red", "dark \"blue\"", "", "😀 ok", "𝔘nicode é名", "back\\slash"}).Draw(t, "infov")}
 			if rapid.Bool().Draw(t, "info2") {
 				o.Info["size"] = "big"
 				o.Info["alpha"] = "first"
@@ -717,6 +720,19 @@ func (g *gen) method(names map[string]bool) *Method {
 		}
 		if pathable && rapid.Bool().Draw(t, "inpath") {
 			g.cls("path-parameter:" + f.Type.Kind)
+			if g.o.OddPathParams && f.Type.Kind != "enum" && rapid.Bool().Draw(t, "oddparam") {
+				cand := rapid.SampledFrom(oddNames).Draw(t, "oddparamname")
+				clash := false
+				for _, other := range m.Request {
+					if strings.EqualFold(snake(other.Name), snake(cand)) || strings.EqualFold(other.Name, cand) {
+						clash = true
+					}
+				}
+				if !clash {
+					f.Name = cand
+					g.cls("path-parameter:odd-name")
+				}
+			}
 			segs = append(segs, "/:"+f.Name)
 			if rapid.Bool().Draw(t, "pathsuffix") {
 				segs = append(segs, "/"+rapid.SampledFrom([]string{"detail", "items", "x"}).Draw(t, "seg"))
@@ -726,7 +742,7 @@ func (g *gen) method(names map[string]bool) *Method {
 	}
 	m.HTTPPath = strings.Join(segs, "")
 	if rapid.IntRange(0, 3).Draw(t, "methodoptions") == 0 {
-		m.Label = rapid.SampledFrom([]string{"Do it", "Read \"one\""}).Draw(t, "mlabel")
+		m.Label = rapid.SampledFrom([]string{"Do it", "Read \"one\"", "😀 label"}).Draw(t, "mlabel")
 		m.Hidden = rapid.Bool().Draw(t, "mhidden")
 		g.cls("method-options")
 	}
